@@ -376,6 +376,17 @@ func checkC09(rep *core.Report) {
 	checkReaderFailureStoreFree(rep, r5)
 	// a short read must fail: every access of the byte reader stays within the buffer's length (not its capacity:
 	// the datagram is a prefix of a larger pooled buffer), for any buffer and argument (same obligations as C19)
+	// whether a set is undecodable is decided by its template and the information model: a template field that the
+	// cache file does not save (an enterprise number tagged json:"-") comes back as another element after a restart,
+	// and a set that was skipped as undecodable is decoded into records nobody sent (same obligations as C11/R11.2)
+	r7 := rep.Rule("R09.7", "premise (shared with C11): every field of a cached template round-trips through the cache file", 10)
+	for _, rel := range []string{"ipfix", "netflow/v9"} {
+		if c := findTplCache(rep.Prog, rel); c.diskT != nil && c.shardT != nil {
+			checkRoundTrip(r7, rel, c.diskT, c.shardT, map[string]bool{}, "")
+		} else {
+			r7.Undecided(rel+":disk-type", token.NoPos, "on-disk type of the template cache not resolved")
+		}
+	}
 	r6 := rep.Rule("R09.6", "no reader method reads beyond the datagram's length, so a read that does not fit fails", 8)
 	{
 		prog := rep.Prog
